@@ -135,6 +135,37 @@ def sample_queries(text, qs):
     return out
 
 
+def _open_call_line(text, line, col):
+    """Line of the innermost '(' that is still open at (line, col), by a plain character scan (strings and comments
+    skipped roughly; the buffers are broken code, no tokenizer applies). None when no bracket is open."""
+    lines = text.split("\n")
+    stack = []
+    for li, ln in enumerate(lines[:line], 1):
+        end = col if li == line else len(ln)
+        quote = None
+        k = 0
+        while k < end:
+            ch = ln[k]
+            if quote:
+                if ch == "\\":
+                    k += 1
+                elif ch == quote:
+                    quote = None
+            elif ch in "'\"":
+                quote = ch
+            elif ch == "#":
+                break
+            elif ch in "([{":
+                stack.append((ch, li))
+            elif ch in ")]}" and stack:
+                stack.pop()
+            k += 1
+    for ch, li in reversed(stack):
+        if ch == "(":
+            return li
+    return None
+
+
 def tree_dump(node):
     out = []
 
@@ -270,11 +301,20 @@ def run_case(ctx, case):
                     mb = _re.search(r"'bracket_start', \[(\d+)", str(a) + str(b))
                     if mb and int(mb.group(1)) < q[1]:
                         shape = ":cursor-below-bracket-line"
+                    elif sorted(a) == sorted(b):
+                        # the same signatures in another order: several definitions of one callee (if/else branches);
+                        # their order is the iteration order of a ValueSet (objects hashed by address)
+                        shape = ":same-signatures-different-order"
                 if q[0] == "complete":
                     import re as _re
                     nm = lambda t: sorted(_re.findall(r"\('name', '([^']*)'\)", str(t)))
                     if nm(a) == nm(b):
                         shape = ":same-names-different-definition"
+                    elif p and _open_call_line(t, q[1], q[2]) not in (None, q[1]):
+                        # completion inside the parentheses of a call opened on an earlier line consults the (stale, see the
+                        # pinned get_signatures finding) 3-second signature cache to decide between positional and
+                        # keyword-only completions
+                        shape = ":inside-call-opened-on-earlier-line"
                 devs.append(("history-dependent-answer:%s:%s%s" % (q[0], "with-path" if p else "no-path", shape),
                              "step %d (%s) %s at %s: with history %s ; fresh process %s" % (si, last_ops, q[0], (q[1], q[2]), str(a)[:300], str(b)[:300])))
     ops = {s["op"] for s in case["steps"]}
